@@ -13,27 +13,58 @@ Open Scope string_scope. Open Scope list_scope.
 Definition append_offset (pos size : Z) : Z :=
   ilookup pad_out_var (exec pad_program [(pad_pos_var, pos); (pad_size_var, size)]).
 
-(* ---- BuildIndex: the header scan loop over an abstract tar stream ------------
-   A stream is a list of members followed by the end-of-archive marker (two zero
-   blocks).  [m_hdr] = number of 512-byte blocks from the start of the member to
-   the start of its data: 1 for a plain ustar header, more when PAX ('x') or GNU
-   ('L','K') extension headers - each with its own data blocks - precede it
-   (archive/tar's Reader folds them into one Next()); [m_size] = the size Next()
-   reports.  The data is followed by padding up to the next block boundary.
-   The reader sits directly on the *os.File (tar.NewReader(f), no buffering), so
-   f.Seek(0, io.SeekCurrent) after Next() is the end of the header blocks; the
-   member's data is skipped lazily by the following Next() ([s_pend]).
-   Envelope: the archive is the one MultiWrite just wrote (regular files; for
-   header-only types hdr.Size need not be the number of data bytes). *)
-Record member := { m_hdr : Z; m_size : Z }.
+(* ---- BuildIndex: the header scan loop over a tar stream of raw header records ------
+   A stream is a list of 512-byte header RECORDS, each followed by its data section
+   padded to a block boundary, then the end-of-archive marker (two zero blocks).
+   archive/tar's Reader.next distinguishes four kinds of record:
+     KFile        a member with a data section of r_size bytes (regular files and every
+                  type flag that is not listed below; r_size is the size that governs the
+                  data section, i.e. after a PAX "size" record has been merged);
+     KHeaderOnly  link, symlink, char/block device, directory, fifo: NO data section
+                  whatever the size field says - but hdr.Size still reports the field;
+     KExt         PAX 'x' / GNU 'L' long name / GNU 'K' long link: its data section is read
+                  by next() itself and describes the FOLLOWING record; Next() does not
+                  return it, it loops;
+     KGlobal      PAX 'g' global header: data section read by next(), then returned by
+                  Next() as an entry of its own with Size 0.
+   (GNU/PAX sparse members are out of scope: MultiWrite never writes them.)
+   The reader sits directly on the *os.File (tar.NewReader(f), no buffering: every read
+   and every discard - a Seek on a file - moves the file offset by exactly the bytes
+   consumed), so f.Seek(0, io.SeekCurrent) observes the reader's own bookkeeping:
+     [pos]  the file offset, [pend] the bytes the next call discards first
+            (tr.curr.physicalRemaining() + tr.pad). *)
+Inductive rkind := KFile | KHeaderOnly | KExt | KGlobal.
+Record rawrec := { r_kind : rkind; r_size : Z }.
 Definition padded (n : Z) : Z := ((n + 511) / 512 * 512)%Z.
-Definition member_len (m : member) : Z := (512 * m_hdr m + padded (m_size m))%Z.
+Definition data_len (r : rawrec) : Z := match r_kind r with KHeaderOnly => 0%Z | _ => padded (r_size r) end.
+Definition rec_len (r : rawrec) : Z := (512 + data_len r)%Z.
 (* offset of the first end-of-archive block *)
-Fixpoint stream_len (ms : list member) : Z :=
-  match ms with [] => 0%Z | m :: t => (member_len m + stream_len t)%Z end.
+Fixpoint stream_len (rs : list rawrec) : Z :=
+  match rs with [] => 0%Z | r :: t => (rec_len r + stream_len t)%Z end.
 
-Inductive rerr := ENone | EEOF.
-Record sstate := { s_rest : list member; s_pos : Z; s_pend : Z; s_cur : option member; s_err : rerr; s_env : ienv }.
+Definition max_special_file_size : Z := 1048576%Z.     (* archive/tar maxSpecialFileSize = 1 << 20 *)
+
+(* one call of Reader.Next(): result, records left, file offset, pending discard *)
+Inductive next_res := NHdr (size : Z) | NEOF | NErr.
+Fixpoint rd_next (rs : list rawrec) (pos pend : Z) : next_res * list rawrec * Z * Z :=
+  match rs with
+  | [] => (NEOF, [], pos + pend + 1024, 0)%Z                      (* discard, then the two zero blocks *)
+  | r :: t =>
+      let p := (pos + pend + 512)%Z in                            (* discard, then one header block *)
+      match r_kind r with
+      | KHeaderOnly => (NHdr (r_size r), t, p, 0%Z)               (* handleRegularFile: nb = 0 *)
+      | KFile => if (r_size r <? 0)%Z then (NErr, t, p, 0%Z)      (* ErrHeader *)
+                 else (NHdr (r_size r), t, p, padded (r_size r))  (* data skipped lazily by the next call *)
+      | KExt => if (r_size r <? 0)%Z || (max_special_file_size <? r_size r)%Z then (NErr, t, p, 0%Z)
+                else rd_next t (p + r_size r)%Z (padded (r_size r) - r_size r)%Z    (* readSpecialFile; continue *)
+      | KGlobal => if (r_size r <? 0)%Z || (max_special_file_size <? r_size r)%Z then (NErr, t, p, 0%Z)
+                   else (NHdr 0%Z, t, (p + r_size r)%Z, (padded (r_size r) - r_size r)%Z)
+      end
+  end.
+
+Inductive rerr := ENone | EEOF | EOther.
+(* [s_cur] = hdr.Size of the header the last Next() returned; None: hdr is nil *)
+Record sstate := { s_rest : list rawrec; s_pos : Z; s_pend : Z; s_cur : option Z; s_err : rerr; s_env : ienv }.
 Inductive flow := Cont (s : sstate) | Brk (s : sstate) | Ret | Pnc.
 
 Definition set_env (s : sstate) (v : string) (z : Z) (e : rerr) : sstate :=
@@ -42,16 +73,17 @@ Definition set_env (s : sstate) (v : string) (z : Z) (e : rerr) : sstate :=
 Definition scan_step (op : scan_op) (s : sstate) : flow :=
   match op with
   | OpNext =>
-      match s_rest s with
-      | m :: t => Cont {| s_rest := t; s_pos := s_pos s + s_pend s + 512 * m_hdr m; s_pend := padded (m_size m);
-                          s_cur := Some m; s_err := ENone; s_env := s_env s |}
-      | [] => Cont {| s_rest := []; s_pos := s_pos s + s_pend s + 1024; s_pend := 0;     (* the two zero blocks *)
-                      s_cur := None; s_err := EEOF; s_env := s_env s |}
+      match rd_next (s_rest s) (s_pos s) (s_pend s) with
+      | (res, rest, pos, pend) =>
+          Cont {| s_rest := rest; s_pos := pos; s_pend := pend;
+                  s_cur := match res with NHdr z => Some z | _ => None end;
+                  s_err := match res with NHdr _ => ENone | NEOF => EEOF | NErr => EOther end;
+                  s_env := s_env s |}
       end
-  | OpBreakEOF => match s_err s with EEOF => Brk s | ENone => Cont s end
-  | OpReturnErr => match s_err s with ENone => Cont s | EEOF => Ret end
+  | OpBreakEOF => match s_err s with EEOF => Brk s | _ => Cont s end
+  | OpReturnErr => match s_err s with ENone => Cont s | _ => Ret end
   | OpPos v => Cont (set_env s v (s_pos s) ENone)          (* Seek on a regular file; overwrites err *)
-  | OpSize v => match s_cur s with Some m => Cont (set_env s v (m_size m) (s_err s)) | None => Pnc end  (* hdr is nil *)
+  | OpSize v => match s_cur s with Some z => Cont (set_env s v z (s_err s)) | None => Pnc end  (* hdr is nil *)
   end.
 
 Fixpoint run_body (ops : list scan_op) (s : sstate) : flow :=
@@ -73,22 +105,27 @@ Fixpoint scan_loop (fuel : nat) (s : sstate) : res ienv :=
 
 (* `var lastFileSize, lastStreamPos int64`: both zero (ilookup of an unbound name is 0).
    Without the rewind the reader starts where MultiWrite stopped: at the end of the file. *)
-Definition scan_start (ms : list member) : sstate :=
+Definition scan_start (rs : list rawrec) : sstate :=
   if scan_rewinds
-  then {| s_rest := ms; s_pos := 0; s_pend := 0; s_cur := None; s_err := ENone; s_env := [] |}
-  else {| s_rest := []; s_pos := stream_len ms + 1024; s_pend := 0; s_cur := None; s_err := ENone; s_env := [] |}.
+  then {| s_rest := rs; s_pos := 0; s_pend := 0; s_cur := None; s_err := ENone; s_env := [] |}
+  else {| s_rest := []; s_pos := stream_len rs + 1024; s_pend := 0; s_cur := None; s_err := ENone; s_env := [] |}.
 
 (* the offset BuildIndex seeks to before it appends: the scan, then the translated arithmetic *)
-Definition scan_offset (ms : list member) : res Z :=
-  do env <- scan_loop (S (S (List.length ms))) (scan_start ms);
+Definition scan_offset (rs : list rawrec) : res Z :=
+  do env <- scan_loop (S (S (List.length rs))) (scan_start rs);
   Ok (append_offset (ilookup pad_pos_var env) (ilookup pad_size_var env)).
 
-(* where the reader stands after each Next() and what size it reports (for the correspondence) *)
-Fixpoint reader_trace (start : Z) (ms : list member) : list (Z * Z) :=
-  match ms with
-  | [] => []
-  | m :: t => let p := (start + 512 * m_hdr m)%Z in (p, m_size m) :: reader_trace (p + padded (m_size m)) t
+(* the reader's bookkeeping observed from outside: (file offset, hdr.Size) after each
+   successful Next() *)
+Fixpoint reader_trace_from (fuel : nat) (rs : list rawrec) (pos pend : Z) : list (Z * Z) :=
+  match fuel with
+  | O => []
+  | S f => match rd_next rs pos pend with
+           | (NHdr z, rest, p, pe) => (p, z) :: reader_trace_from f rest p pe
+           | _ => []
+           end
   end.
+Definition reader_trace (rs : list rawrec) : list (Z * Z) := reader_trace_from (S (List.length rs)) rs 0 0.
 
 (* ---- architectures -------------------------------------------------------- *)
 Definition parse_architecture (s : string) : string :=
